@@ -627,7 +627,9 @@ def run(pid, tier, seed, res, p_sub=None, p_flag=None, only=None):
             res.traces_validated += 1
             if v:
                 codes = [(v[i], m["ids"].names[v[i + 1]]) for i in range(0, len(v), 2)][:4]
-                for p in ["C01"] + (["C10"] if has_flags(prog) else []):
+                # (a missing / different argument is also C02's business: the node does not receive the return value
+                #  of a dependency the describing function wrote)
+                for p in ["C01"] + (["C10"] if has_flags(prog) else []) + (["C02"] if any(c_[0] == 3 for c_ in codes) else []):
                     res.hit(p, "divergence", "K-build: the describing function's own table is not embedded in the table tawazi built (codes %s; 1 node missing, 2 function, 3 arguments / key paths, 4 flag, 5 constant or parameter value, 6 absent id)" % codes,
                             dict(base, kind="divergence", codes=codes))
             continue
